@@ -92,14 +92,28 @@ func NewNet(s *dsim.Sim) *Net {
 		}
 		return k
 	}
-	n.Server = signaling_server.NewServerWithIdentify(le, func(ctx context.Context) (peer.ID, error) {
+	n.Server = n.newServer()
+	return n
+}
+
+func (n *Net) newServer() *signaling_server.Server {
+	return signaling_server.NewServerWithIdentify(n.Log, func(ctx context.Context) (peer.ID, error) {
 		id, _ := ctx.Value(identKey{}).(*Ident)
 		if id == nil || id.Peer == "" {
 			return "", errors.New("no identity")
 		}
 		return id.Peer, nil
 	})
-	return n
+}
+
+// RestartRelay is the relay crash-restart fault: every stream fails at once and the relay
+// comes back with empty state (it has no durable state: session epochs start over).
+func (n *Net) RestartRelay() {
+	for _, st := range n.Streams() {
+		st.Reset("relay-restart")
+	}
+	n.Server = n.newServer()
+	n.S.Logf("relay restarted (all streams reset, state lost)")
 }
 
 // Name returns the short name of a peer id string.
